@@ -136,7 +136,8 @@ contract(LM + "_build_loan_info", props=P + ["C11"], returns="LoanInfo", modifie
                              "and result.borrowed_amount == loan._borrowed_amount"),
                   ("nonneg", "forall(lambda s=Str: at(result.outstanding_interest, s) >= 0)"),
                   ("closed_no_interest", "implies(not loan._is_open, forall(lambda s=Str: not (s in result.outstanding_interest)))")],
-         raises={"Error": []})
+         # only the interest of an open loan can fail to be computed (no price, unconfigured symbol)
+         raises={"Error": [("only_open", "loan._is_open")]})
 
 contract(LM + "create_loan", props=P, types={"symbol": "Str", "amount": "Real"}, returns="LoanInfo",
          requires=[("inv", "lm_inv(self)")],
@@ -161,7 +162,8 @@ contract(LM + "create_loan", props=P, types={"symbol": "Str", "amount": "Real"},
 REPAY_RAISES = {"Error": [("account", "unchanged(acc_of(self))"),
                           ("loans", "content_unchanged(self._loans._items, self._loans._open_items, self._collateral_by_loan) and unchanged(self._loans)"),
                           ("loan_untouched", "implies(loan_id in self._loans._items, unchanged(self._loans._items[loan_id]) "
-                                             "and content_unchanged(self._loans._items[loan_id]._paid_interest))")]}
+                                             "and content_unchanged(self._loans._items[loan_id]._paid_interest))"),
+                          ("ledger_same", "forall(lambda s=Str: GHOST.ledger[s] == old(GHOST.ledger[s]))")]}
 contract(LM + "repay_loan", props=P + ["C11"], types={"loan_id": "Id"},
          requires=[("inv", "lm_inv(self)"), ("cfg", "cfg_all_symbols(self._ctx.config)"),
                    ("clock", "implies((loan_id in self._loans._items) and self._loans._items[loan_id]._is_open, "
